@@ -207,7 +207,10 @@ func (x *Exec) lookupLocal(name string, env *SpecEnv) (TV, bool) {
 					cands = append(cands, o)
 				}
 			}
-			same := len(cands) > 0
+			if len(cands) == 0 {
+				continue
+			}
+			same := true
 			for _, c := range cands[1:] {
 				if !vSame(env.st.vars[c], env.st.vars[cands[0]]) {
 					same = false
